@@ -45,7 +45,7 @@ def ppCheck (d : List (Int × Model.PartProd.St × List Model.PartProd.Action)) 
     Except String (List (Int × Model.PartProd.St × List Model.PartProd.Action)) :=
   if kind = "pp.recv" then
     let (st, q) := getPP d p
-    if ¬ q.isEmpty then .error s!"pp.recv on partition {p} while the model still expects {repr q}"
+    if ¬ q.isEmpty then .error s!"pp.recv on partition {p} while the model still expects {(repr q).pretty 1000000}"
     else
       let r := Model.PartProd.recv st { id := id, retries := a.toNat, fin := (b.toNat / 2) % 2 = 1 }
       .ok (setPP d p r)
@@ -56,13 +56,13 @@ def ppCheck (d : List (Int × Model.PartProd.St × List Model.PartProd.Action)) 
     | some act =>
       let (st, q) := getPP d part
       match q with
-      | [] => .error s!"partition producer {part}: unexpected {repr act}"
+      | [] => .error s!"partition producer {part}: unexpected {(repr act).pretty 1000000}"
       | x :: rest =>
         let same : Bool := match x, act with
           | .emit i l _, .emit j m _ => i == j && l == m      -- the fin flag is not carried by pp.fwd events
           | _, _ => x == act
         if same then .ok (setPP d part (st, rest))
-        else .error s!"partition producer {part}: expected {repr x}, observed {repr act}"
+        else .error s!"partition producer {part}: expected {(repr x).pretty 1000000}, observed {(repr act).pretty 1000000}"
 
 /-! ### broker workers (Model.BrokerProd)
 
@@ -131,10 +131,27 @@ def actId : Action → Option Int
 
 def name (w : BW) : String := s!"broker worker {w.broker}#{w.key}"
 
+/-- one-line rendering (a rejection is one line of the protocol) -/
+def showAct : Action → String
+  | .ackSyn p => s!"ackSyn(p{p})"
+  | .refuse i => s!"refuse({i})"
+  | .requeue i p r f => s!"requeue({i},p{p},retries={r}{if f then ",fin" else ""})"
+  | .expire i p f => s!"expire({i},p{p}{if f then ",fin" else ""})"
+  | .add i p => s!"add({i},p{p})"
+  | .succ i p => s!"succ({i},p{p})"
+  | .fail i p => s!"fail({i},p{p})"
+  | .drop p => s!"drop(p{p})"
+  | .closing => "closing"
+  | .abandon => "abandon"
+  | .disabled => "disabled"
+
+def showActs (l : List Action) : String := "[" ++ " ".intercalate (l.map showAct) ++ "]"
+def showInts (l : List Int) : String := "[" ++ " ".intercalate (l.map toString) ++ "]"
+
 def cmp (final : Bool) (w : BW) (st' : Model.BrokerProd.St) (exp obs : List Action) : Except String BW :=
   if exp.contains .disabled then .error s!"{name w}: input not enabled in the model state"
   else if (if final then obs.isPrefixOf exp else obs == exp) then .ok { w with st := st', pend := .idle, obs := [], verd := [] }
-  else .error s!"{name w}: expected {repr exp}, observed {repr obs}"
+  else .error s!"{name w}: expected {showActs exp}, observed {showActs obs}"
 
 /-- reconstruct the response input from what was observed -/
 def respOf (w : BW) (sent : List Tok) (obs : List Action) : Except String Resp :=
@@ -159,7 +176,7 @@ def respOf (w : BW) (sent : List Tok) (obs : List Action) : Except String Resp :
 def settle (max : Nat) (final : Bool) (w : BW) : Except String BW :=
   let obs := w.obs.reverse
   match w.pend with
-  | .idle => if obs.isEmpty then .ok w else .error s!"{name w}: unexpected {repr obs}"
+  | .idle => if obs.isEmpty then .ok w else .error s!"{name w}: unexpected {showActs obs}"
   | .eager exp => cmp final w w.st exp obs
   | .recvTok t =>
     if final && obs.isEmpty then .ok { w with pend := .idle }
@@ -188,7 +205,7 @@ def pristine (max : Nat) (w : BW) : Bool :=
 /-- push an observed action to the worker that holds token `id`; `leave` = the token is gone afterwards -/
 def observe (wd : World) (id : Int) (act : Action) (leave must : Bool) : List (Except String World) :=
   match holderOf wd id with
-  | none => if must then [.error s!"broker worker event {repr act} for a token no worker holds"] else [.ok wd]
+  | none => if must then [.error s!"broker worker event {showAct act} for a token no worker holds"] else [.ok wd]
   | some w =>
     let ca : Option Nat := if w.closedAt.isNone && w.obs.contains .closing then some wd.clock else w.closedAt
     let wd' := putW wd { w with obs := act :: w.obs, closedAt := ca }
@@ -196,6 +213,10 @@ def observe (wd : World) (id : Int) (act : Action) (leave must : Bool) : List (E
 
 def orErr (l : List (Except String World)) (m : String) : List (Except String World) :=
   if l.isEmpty then [.error m] else l
+
+/-- no worker of this scenario fits: the event is a stray one (see bp.resp.end below) and is ignored -/
+def orStray (l : List (Except String World)) (wd : World) : List (Except String World) :=
+  if l.isEmpty then [.ok wd] else l
 
 /-- one hook event in one world: every consistent continuation (or an error) -/
 def wstep (max : Nat) (wd : World) (kind : String) (id a b p : Int) : List (Except String World) :=
@@ -277,15 +298,19 @@ def wstep (max : Nat) (wd : World) (kind : String) (id a b p : Int) : List (Exce
           | .error m => [.error m]
           | .ok w' => [.ok (putW wd { w' with pend := .respList [id] })]
   | "bp.resp.end" =>
-    -- the listed set must be the set in flight (an empty set has no bp.resp events at all)
-    orErr ((wd.ws.filter (fun w => w.broker == a)).filterMap fun w =>
+    -- the listed set must be the set in flight (an empty set has no bp.resp events at all).
+    -- When no worker has a listed or an empty set in flight the event is ignored: the harness runs the scenarios
+    -- of a process one after the other with one global hook sink, and a producer that was closed while an EMPTY
+    -- produce set was still at its bridge (the stale-`output` hand-over) reports the answer - bp.answered.end,
+    -- bp.resp.end, bp.closing - into the NEXT scenario's trace.
+    orStray ((wd.ws.filter (fun w => w.broker == a)).filterMap fun w =>
       match w.pend with
       | .respList ids =>
         match w.st.sets with
         | sent :: _ =>
           let ord := ids.filterMap (fun i => (sent.find? (fun t => t.id == i)).map (·.part))
           if (arrange (ord ++ partsOf sent) sent).map (·.id) == ids then some (.ok (putW wd { w with pend := .resp, obs := [], verd := [] }))
-          else some (.error s!"{name w}: response for {repr ids}, but the set in flight is {repr (sent.map (·.id))}")
+          else some (.error s!"{name w}: response for {showInts ids}, but the set in flight is {showInts (sent.map (·.id))}")
         | [] => some (.error s!"{name w}: response without a set in flight")
       | .resp => none
       | _ =>
@@ -294,7 +319,7 @@ def wstep (max : Nat) (wd : World) (kind : String) (id a b p : Int) : List (Exce
           | [] :: _ => some (.ok (putW wd { w' with pend := .resp, obs := [], verd := [] }))
           | _ => none
         | .error _ => none)
-      s!"bp.resp.end at broker {a} without a listed set"
+      wd
   | "bp.verdict" =>
     orErr ((wd.ws.filter (fun w => (match w.pend, w.st.sets with
         | .resp, sent :: _ => (partsOf sent).contains a && (w.verd.lookup a).isNone
@@ -305,9 +330,9 @@ def wstep (max : Nat) (wd : World) (kind : String) (id a b p : Int) : List (Exce
         && (w.verd.lookup a).isSome)).map fun w => .ok (putW wd { w with obs := .drop a :: w.obs }))
       s!"bp.drop of partition {a} at broker {b} fits no worker that is handling a response"
   | "bp.closing" =>
-    orErr ((wd.ws.filter (fun w => w.broker == a && (match w.pend with | .resp => true | _ => false)
+    orStray ((wd.ws.filter (fun w => w.broker == a && (match w.pend with | .resp => true | _ => false)
         && w.obs.isEmpty && w.verd.isEmpty)).map fun w => .ok (putW wd { w with obs := [.closing] }))
-      s!"bp.closing at broker {a} fits no worker that is handling a response"
+      wd
   | _ => [.ok wd]
 
 /-- end of the trace: every pending input must be consistent with a prefix of the model's reaction -/
